@@ -265,6 +265,25 @@ def _dispatch(k, c):
                 cat.intersect(co, filled=c["filled"])
             elif m == "voronoi":
                 G.voronoi(cat, points(n, c["p"]))
+    elif k.startswith("dcat."):
+        shape = tuple(c["shape"])
+        N = shape[0] * shape[1]
+        flow = flowgrid(shape, "se")
+        base = G.Catchment("c", flow)
+        base.delineate_area(N - 1, nval=N + 2)
+        cellsets = {"single": [N // 2], "pair": [0, N - 1], "corner": [0], "all": list(range(N)), "outgrid": [0, N + 5], "negative": [-3, 1],
+                    "empty": [], "duplicate": [1, 1, 1]}
+        dic = base.to_dict()
+        dic["idxcells_area"] = cellsets[c["area"]]
+        dic["idxcells_area_filled"] = cellsets[c["area"]]
+        cat = G.Catchment.from_dict(dic)
+        m = k[5:]
+        if m == "boundary":
+            cat.delineate_boundary()
+        elif m == "intersect":
+            cat.intersect(G.Grid("co", 2, 2, cellsize=2.0, xllcorner=-0.5, yllcorner=-0.5))
+        else:
+            G.voronoi(cat, points(2, "fin"))
     elif k == "accumulate":
         flow = flowgrid(tuple(c["shape"]), c["fd"])
         G.accumulate(flow, nprint=c["nprint"], max_accumulated_cells=c["maxacc"])
